@@ -2,6 +2,8 @@ import AGV.Model.HttpGet
 import AGV.Spec.HttpGet
 import AGV.Lemmas.HttpGet
 import AGV.Gen.GetBranches
+import AGV.Model.HttpGetBody
+import AGV.Spec.HttpGetBody
 
 /-!
 C35 — HTTP GET requests never execute mutations.
@@ -26,6 +28,23 @@ GET-decoded requests to the executor unmarked).
   OBLIGATION c35_toggles_independent
   OBLIGATION c35_unmarked_unsafe_iff
   OBLIGATION c35_src_get_branches
+
+Body dimension (`AGV.Model.HttpGetBody.handleX Br D integration route accept x`: method, query-string
+shape, content type, Content-Length and body content vary independently; `Br` = per integration what
+a GET without query part and what the other methods do; `extracted` = that table as read from the
+source by srcfacts `GetBranches`), property `AGV.Spec.HttpGetBody.getSafeX`:
+
+  OBLIGATION c35_src_method_dispatch
+  OBLIGATION c35_getbody_no_mutation_resolver
+  OBLIGATION c35_getbody_safe
+  OBLIGATION c35_getbody_safe_of_branches
+  OBLIGATION c35_get_ignores_body
+  OBLIGATION c35_get_without_query_key_answered_with_error
+  OBLIGATION c35_getbody_extends_model
+  OBLIGATION c35_fallthrough_witness
+  OBLIGATION c35_fallthrough_is_post
+  OBLIGATION c35_fallthrough_needs_no_query_part
+  OBLIGATION c35_other_methods_take_body_branch
 -/
 
 namespace AGV.Props.C35
@@ -379,5 +398,196 @@ theorem c35_unmarked_unsafe_iff (D : Defects) (i : Integ) (hD : D.unmarked i = t
 theorem c35_src_get_branches :
     AGV.Gen.GetBranches.getDecoders = allIntegs.map (fun i => (integDir i, getDecoderOf i)) := by
   decide
+
+-- ------------------------------------------------------------------ the body dimension
+
+section Body
+open AGV.Spec.HttpGetBody AGV.Model.HttpGetBody
+
+/-- the method dispatch of the five integrations as extracted from the source on every run -/
+def extracted : Branches :=
+  Branches.ofTables AGV.Gen.GetBranches.getNoQuery AGV.Gen.GetBranches.otherMethods
+
+/-- The extracted dispatch (what a GET whose URI has no query part does; what methods other than
+    GET and POST do) is the one the correspondence model runs with; in particular no integration
+    hands a GET to the body branch. -/
+theorem c35_src_method_dispatch (i : Integ) :
+    extracted.noQuery i = srcBranches.noQuery i ∧ extracted.other i = srcBranches.other i := by
+  cases i <;> decide
+
+theorem extracted_not_readsBody (i : Integ) : extracted.noQuery i ≠ .readsBody := by
+  rw [(c35_src_method_dispatch i).1]
+  cases i <;> decide
+
+/-- the query branch of a marking integration is safe (restating `c35_get_safe_unless_listed`) -/
+theorem queryBranch_safe (D : Defects) (i : Integ) (hD : D.unmarked i = false) (route : Route)
+    (acc : Accept) (r : Req) :
+    noMutationRan (queryBranch D i route acc r) = true ∧
+      (selectsMutation r = true → answeredWithError (queryBranch D i route acc r) = true) := by
+  have h := c35_get_safe_unless_listed D i hD route acc (.single r)
+  simp only [getSafe, getRequest, Option.any_some] at h
+  unfold queryBranch
+  cases hm : selectsMutation r <;> simp_all
+
+/-- General form: for ANY dispatch table in which integration `i` does not hand a GET to the body
+    branch and any toggle set that does not list `i`, every exchange — every method, query-string
+    shape, content type, Content-Length, body — satisfies the property. -/
+theorem c35_getbody_safe_of_branches (Br : Branches) (D : Defects) (i : Integ)
+    (hBr : Br.noQuery i ≠ .readsBody) (hD : D.unmarked i = false) (route : Route) (acc : Accept)
+    (x : ReqX) :
+    getSafeX x (handleX Br D i route acc x) = true := by
+  obtain ⟨m, q, ct, cl, p⟩ := x
+  cases m <;> try rfl
+  simp only [getSafeX, handleX, handleGet, bne_self_eq_false, Bool.false_or, Bool.and_eq_true]
+  cases q with
+  | qs r =>
+    have h := queryBranch_safe D i hD route acc r
+    refine ⟨h.1, ?_⟩
+    cases hm : selectsMutation r with
+    | false => simp [QS.request, hm]
+    | true => simp [QS.request, hm, h.2 hm]
+  | emptyq | junk =>
+    exact ⟨(queryBranch_safe D i hD route acc noKeys).1, by simp [QS.request]⟩
+  | noq =>
+    cases hn : Br.noQuery i with
+    | readsBody => exact absurd hn hBr
+    | error => exact ⟨rfl, by simp [QS.request]⟩
+    | emptyQuery => exact ⟨(queryBranch_safe D i hD route acc noKeys).1, by simp [QS.request]⟩
+
+/-- C35 with the body dimension, over the extracted dispatch: every integration, route, Accept
+    header, method, query-string shape, content type, Content-Length and body. -/
+theorem c35_getbody_safe (i : Integ) (route : Route) (acc : Accept) (x : ReqX) :
+    getSafeX x (handleX extracted Defects.none i route acc x) = true :=
+  c35_getbody_safe_of_branches extracted Defects.none i (extracted_not_readsBody i)
+    (by cases i <;> rfl) route acc x
+
+/-- … in particular: whatever a GET carries in its body (a mutation, a batch, as JSON or multipart,
+    with or without Content-Length) and whatever its URI looks like, no mutation resolver runs. -/
+theorem c35_getbody_no_mutation_resolver (i : Integ) (route : Route) (acc : Accept) (q : QS) (ct : CT)
+    (cl : Bool) (p : Option Body) :
+    noMutationRan (handleX extracted Defects.none i route acc ⟨.get, q, ct, cl, p⟩) = true := by
+  have h := c35_getbody_safe i route acc ⟨.get, q, ct, cl, p⟩
+  simp only [getSafeX, bne_self_eq_false, Bool.false_or, Bool.and_eq_true] at h
+  exact h.1
+
+/-- A GET never looks at its body: content type, Content-Length and body content do not influence
+    the answer (any toggle set; any dispatch that does not hand GET to the body branch). -/
+theorem c35_get_ignores_body (Br : Branches) (D : Defects) (i : Integ)
+    (hBr : Br.noQuery i ≠ .readsBody) (route : Route) (acc : Accept) (q : QS)
+    (ct ct' : CT) (cl cl' : Bool) (p p' : Option Body) :
+    handleX Br D i route acc ⟨.get, q, ct, cl, p⟩ = handleX Br D i route acc ⟨.get, q, ct', cl', p'⟩ := by
+  simp only [handleX, handleGet]
+  cases q <;> try rfl
+  cases hn : Br.noQuery i <;> first | rfl | exact absurd hn hBr
+
+/-- A GET whose URI carries no `query` key (no `?`, `?`, `?foo=1&bar`, `?operationName=…`) is
+    answered with an error and runs NO resolver at all — under every toggle set, the pinned tree
+    included. -/
+theorem c35_get_without_query_key_answered_with_error (Br : Branches) (D : Defects) (i : Integ)
+    (hBr : Br.noQuery i ≠ .readsBody) (route : Route) (acc : Accept) (x : ReqX)
+    (hx : x.method = .get) (hq : x.qs.hasQuery = false) :
+    answeredWithError (handleX Br D i route acc x) = true ∧ (handleX Br D i route acc x).log = [] := by
+  have key : ∀ r : Req, r.quirk = .noquery →
+      answeredWithError (queryBranch D i route acc r) = true ∧ (queryBranch D i route acc r).log = [] := by
+    intro r hr
+    cases i <;>
+      simp [queryBranch, handle, decodeGet, hr, respondSingle, execute, prepare, rejected,
+        answeredWithError, Resp.failed]
+  obtain ⟨m, q, ct, cl, p⟩ := x
+  cases hx
+  simp only [handleX, handleGet]
+  cases q with
+  | qs r => exact key r (by simpa [QS.hasQuery] using hq)
+  | emptyq | junk => exact key noKeys rfl
+  | noq =>
+    cases hn : Br.noQuery i with
+    | readsBody => exact absurd hn hBr
+    | error => exact ⟨rfl, rfl⟩
+    | emptyQuery => exact key noKeys rfl
+
+/-- The model with the body dimension extends the one of the stream `main`: a GET with a query
+    string is that model's GET (the body is not looked at), a POST with a body that model's POST. -/
+theorem c35_getbody_extends_model (Br : Branches) (D : Defects) (i : Integ) (route : Route)
+    (acc : Accept) (q : QS) (ct : CT) (cl : Bool) (p : Option Body) (r : Req) (b : Body) :
+    handleX Br D i route acc ⟨.get, .qs r, ct, cl, p⟩ = handle D i route .get acc (.single r) ∧
+    handleX Br D i route acc ⟨.post, q, ct, cl, some b⟩ = handle D i route .post acc b :=
+  ⟨rfl, rfl⟩
+
+/-- `GET /path` (no `?`), body `{"query":"mutation{inc}"}` as application/json -/
+def witnessX : ReqX := ⟨.get, .noq, .json, true, some witness⟩
+
+/-- `GET /path`, body `[{"query":"{a}"},{"query":"mutation{inc}"}]` as multipart/form-data -/
+def witnessBatchX : ReqX :=
+  ⟨.get, .noq, .multipart, false,
+    some (.batch [⟨.ops [⟨.query, none, [.a]⟩], none, none, .ok⟩, ⟨.ops [⟨.mutation, none, [.inc]⟩], none, none, .ok⟩])⟩
+
+/-- Witness for the dispatch `if let (&Method::GET, Some(query)) = (method, uri.query())`: if
+    integration `j` lets a GET without query part fall into the body branch shared with POST, then
+    `GET /path` with a mutation in the body runs it — on every route, although requests decoded
+    from query strings are still marked (no toggle set).  The batch witness needs a batch route. -/
+theorem c35_fallthrough_witness (j : Integ) (route : Route) (acc : Accept) :
+    getSafeX witnessX (handleX (fallThrough j) Defects.none j route acc witnessX) = false ∧
+    (handleX (fallThrough j) Defects.none j route acc witnessX).log = [.m .inc] ∧
+    (handleX (fallThrough j) Defects.none j .batch acc witnessBatchX).log = [.q .a, .m .inc] := by
+  cases j <;> cases route <;> cases acc <;> decide
+
+/-- Extent of such a fall-through: the GET without query part is then answered exactly like the
+    POST with the same body … -/
+theorem c35_fallthrough_is_post (Br : Branches) (D : Defects) (i : Integ)
+    (h : Br.noQuery i = .readsBody) (route : Route) (acc : Accept) (ct : CT) (cl : Bool)
+    (p : Option Body) :
+    handleX Br D i route acc ⟨.get, .noq, ct, cl, p⟩ = handleX Br D i route acc ⟨.post, .noq, ct, cl, p⟩ := by
+  simp [handleX, handleGet, h]
+
+/-- … and ONLY that request is affected: a GET whose URI has any query part (`?`, `?foo=1`,
+    `?query=…`) stays safe under every dispatch table — which is why a harness that always sends
+    a query string cannot see the defect. -/
+theorem c35_fallthrough_needs_no_query_part (Br : Branches) (D : Defects) (i : Integ)
+    (hD : D.unmarked i = false) (route : Route) (acc : Accept) (x : ReqX) (hq : x.qs ≠ .noq) :
+    getSafeX x (handleX Br D i route acc x) = true := by
+  obtain ⟨m, q, ct, cl, p⟩ := x
+  cases m <;> try rfl
+  simp only [getSafeX, handleX, handleGet, bne_self_eq_false, Bool.false_or, Bool.and_eq_true]
+  cases q with
+  | noq => exact absurd rfl hq
+  | qs r =>
+    have h := queryBranch_safe D i hD route acc r
+    refine ⟨h.1, ?_⟩
+    cases hm : selectsMutation r with
+    | false => simp [QS.request, hm]
+    | true => simp [QS.request, hm, h.2 hm]
+  | emptyq | junk =>
+    exact ⟨(queryBranch_safe D i hD route acc noKeys).1, by simp [QS.request]⟩
+
+/-- Not GET, hence outside the property, but recorded: the extractors of axum and poem send every
+    method other than GET to the body branch, so a HEAD or PUT request whose body carries a
+    mutation runs it (axum answers HEAD through `get(handler)` routes too); actix-web and warp
+    refuse such methods, rocket answers HEAD through the GET route. -/
+theorem c35_other_methods_take_body_branch (acc : Accept) (q : QS) (ct : CT) (cl : Bool) :
+    (handleX srcBranches Defects.none .axum .single acc ⟨.head, q, ct, cl, some witness⟩).log = [.m .inc] ∧
+    (handleX srcBranches Defects.none .axum .svc acc ⟨.put, q, ct, cl, some witness⟩).log = [.m .inc] ∧
+    (handleX srcBranches Defects.none .poem .single acc ⟨.head, q, ct, cl, some witness⟩).log = [.m .inc] ∧
+    (∀ route m, m ≠ .get → m ≠ .post →
+      (handleX srcBranches Defects.none .actix route acc ⟨m, q, ct, cl, some witness⟩).log = [] ∧
+      (handleX srcBranches Defects.none .warp route acc ⟨m, q, ct, cl, some witness⟩).log = [] ∧
+      (handleX srcBranches Defects.none .rocket route acc ⟨m, q, ct, cl, some witness⟩).log.all
+        (fun e => !e.isMutation) = true) := by
+  refine ⟨by cases acc <;> rfl, by cases acc <;> rfl, by cases acc <;> rfl, ?_⟩
+  intro route m hg hp
+  have hr := c35_getbody_safe_of_branches srcBranches Defects.none .rocket (by decide) rfl route acc
+    ⟨.get, q, ct, cl, some witness⟩
+  simp only [getSafeX, bne_self_eq_false, Bool.false_or, Bool.and_eq_true] at hr
+  cases m with
+  | get => exact absurd rfl hg
+  | post => exact absurd rfl hp
+  | head =>
+    refine ⟨rfl, rfl, ?_⟩
+    have e : handleX srcBranches Defects.none .rocket route acc ⟨.head, q, ct, cl, some witness⟩
+        = strip (handleX srcBranches Defects.none .rocket route acc ⟨.get, q, ct, cl, some witness⟩) := rfl
+    rw [e]
+    exact hr.1
+  | put => exact ⟨rfl, rfl, rfl⟩
+
+end Body
 
 end AGV.Props.C35
